@@ -1492,9 +1492,10 @@ def switch_bbox_epsg_axis_order""", 'C01.a'),
     M('M-C05p-revert-D30', 'mapproxy/cache/path.py', """    value = str(value).replace('%', '%25')
     for sep, escaped in (('/', '%2F'), ('\\\\', '%5C')):
         value = value.replace(sep, escaped)
-    return value""", """    value = str(value).replace('%', '%25')
-    for sep, escaped in (('/', '%2F'), ('\\\\', '%5C')):
-        value = value.replace(sep, escaped)
+    return value""", """    value = str(value)
+    for sep in ('/', '\\\\', os.sep, os.altsep):
+        if sep:
+            value = value.replace(sep, '_')
     return value""", 'C05.p', 'revert of fix D30'),
     M('M-C05p-escape-char-not-first', 'mapproxy/cache/path.py', """    value = str(value).replace('%', '%25')
     for sep, escaped in (('/', '%2F'), ('\\\\', '%5C')):
